@@ -1,4 +1,772 @@
 import Pun.Model.Free
+import Pun.Lemmas.FreeLaw
+import Mathlib.Data.List.Sort
+set_option linter.unusedSimpArgs false
+set_option linter.unusedVariables false
+/-!
+# C10 — distribution-free p-boxes enclose every distribution meeting the constraints
+
+Laws are finite discrete (`Pun.Law`); `q` is a `p`-quantile iff `P(X<q) ≤ p ≤ P(X≤q)`; step `k` covers the
+levels `(k/200, (k+1)/200)`.  Every theorem is about the functions of `Pun.Model.Free` that the driver executes.
+Proved: enclosure for min_max, min_mean, max_mean, mean_std (mean_var = mean_std on the supplied root),
+min_max_mean, min_max_median; sharpness by the Markov and Cantelli two-point laws; the dispatcher table.
+Partial (stated as such): min_max_mode (`ModeStatement`), min_max_mean_std (`MmmsStatement`).
+-/
 namespace Pun.Free
-theorem placeholder_c10 : (1 : Nat) = 1 := rfl
+open Pun Pun.Law
+
+theorem stretch_get {l L : List Rat} (h : stretch l = .ok L) {k : Nat} (hk : k < l.length) :
+    L[k]? = l[k]? := by
+  unfold stretch at h
+  split at h
+  · cases h; rfl
+  · split at h
+    · split at h
+      · cases h; rw [List.getElem?_append_left hk]
+      · cases h
+    · cases h
+
+theorem stretch_length {l L : List Rat} (h : stretch l = .ok L) : L.length = 200 := by
+  unfold stretch at h
+  split at h
+  · cases h; assumption
+  · split at h
+    · split at h
+      · cases h; simp; omega
+      · cases h
+    · cases h
+
+theorem allGe_get : ∀ {l r : List Rat}, allGe l r = true → ∀ {k : Nat} {a b : Rat},
+    l[k]? = some a → r[k]? = some b → b ≤ a
+  | [], _, _, k, _, _, ha, _ => by simp at ha
+  | _ :: _, [], _, k, _, _, _, hb => by simp at hb
+  | a :: as, b :: bs, h, 0, _, _, ha, hb => by
+      simp [allGe] at h; simp at ha hb; subst ha hb; exact h.1
+  | a :: as, b :: bs, h, k+1, _, _, ha, hb => by
+      simp [allGe] at h; simp at ha hb; exact allGe_get h.2 ha hb
+
+def swOf (cmp : Cmp) (l r : List Rat) : Bool :=
+  match cmp with
+  | .elementwise => allGe l r
+  | .lexi => lexGe l r
+
+theorem staircase_ok {cmp : Cmp} {l r L R : List Rat} (h : staircase cmp l r = .ok (L, R)) :
+    stretch (if swOf cmp l r then r else l) = .ok L ∧ stretch (if swOf cmp l r then l else r) = .ok R ∧
+      isIncreasing L = true ∧ isIncreasing R = true := by
+  cases cmp <;>
+  · unfold staircase at h
+    simp only [swOf]
+    simp only at h
+    split at h
+    · rename_i l' r' h1 h2
+      split at h
+      · rename_i hinc
+        cases h
+        simp at hinc
+        exact ⟨h1, h2, hinc.1, hinc.2⟩
+      · cases h
+    · cases h
+    · cases h
+
+/-- elementwise switch: whatever the switch does, the left bound only moves down and the right bound up -/
+theorem staircase_elementwise_widen {l r L R : List Rat} (h : staircase .elementwise l r = .ok (L, R))
+    {k : Nat} {a b : Rat} (hl : l[k]? = some a) (hr : r[k]? = some b) :
+    ∃ A B, L[k]? = some A ∧ R[k]? = some B ∧ A ≤ a ∧ b ≤ B := by
+  obtain ⟨h1, h2, -, -⟩ := staircase_ok h
+  have hkl : k < l.length := by
+    by_contra hc; rw [List.getElem?_eq_none (by omega)] at hl; cases hl
+  have hkr : k < r.length := by
+    by_contra hc; rw [List.getElem?_eq_none (by omega)] at hr; cases hr
+  by_cases hsw : allGe l r = true
+  · simp [swOf, hsw] at h1 h2
+    exact ⟨b, a, by rw [stretch_get h1 hkr, hr], by rw [stretch_get h2 hkl, hl], allGe_get hsw hl hr, allGe_get hsw hl hr⟩
+  · simp [swOf, hsw] at h1 h2
+    exact ⟨a, b, by rw [stretch_get h1 hkl, hl], by rw [stretch_get h2 hkr, hr], le_refl _, le_refl _⟩
+
+theorem lexGe_false_of_head : ∀ {l r : List Rat} {a b : Rat}, l[0]? = some a → r[0]? = some b → a < b →
+    lexGe l r = false
+  | [], _, _, _, ha, _, _ => by simp at ha
+  | _ :: _, [], _, _, _, hb, _ => by simp at hb
+  | x :: xs, y :: ys, a, b, ha, hb, hab => by
+      simp at ha hb; subst ha hb
+      have hne : ¬ x = y := ne_of_lt hab
+      simp [lexGe, hne, not_le.mpr hab]
+
+/-- list switch: no switch (or a switch of two equal lists) leaves the bounds in place -/
+theorem staircase_lexi_get {l r L R : List Rat} (h : staircase .lexi l r = .ok (L, R))
+    (hns : lexGe l r = false ∨ l = r) {k : Nat} (hkl : k < l.length) (hkr : k < r.length) :
+    L[k]? = l[k]? ∧ R[k]? = r[k]? := by
+  obtain ⟨h1, h2, -, -⟩ := staircase_ok h
+  rcases hns with hns | hns
+  · simp [swOf, hns] at h1 h2
+    exact ⟨stretch_get h1 hkl, stretch_get h2 hkr⟩
+  · subst hns
+    simp at h1 h2
+    exact ⟨stretch_get h1 hkl, stretch_get h2 hkr⟩
+
+theorem range_map_get (f : Nat → Rat) {n k : Nat} (hk : k < n) : ((List.range n).map f)[k]? = some (f k) := by
+  simp [hk]
+
+theorem replicate_get (a : Rat) {n k : Nat} (hk : k < n) : (List.replicate n a)[k]? = some a := by
+  rw [List.getElem?_replicate]; simp [hk]
+
+theorem lvR_lt_one {k : Nat} (hk : k < 199) : lvR k < 1 := by
+  unfold lvR
+  have : (k : Rat) < 199 := by exact_mod_cast hk
+  rw [div_lt_one (by norm_num)]; linarith
+
+theorem lvL_nonneg (k : Nat) : 0 ≤ lvL k := by
+  unfold lvL; positivity
+
+theorem lvR_pos (k : Nat) : 0 < lvR k := by
+  unfold lvR; positivity
+
+theorem mean_ge_min {ι : Type*} [Fintype ι] (w x : ι → ℚ) (hw : IsLaw w) (m : ℚ) (hm : ∀ i, m ≤ x i) :
+    m ≤ mean w x := by
+  unfold mean
+  have : m = ∑ i, w i * m := by rw [← Finset.sum_mul, hw.2]; ring
+  rw [this]
+  apply Finset.sum_le_sum; intro i _
+  exact mul_le_mul_of_nonneg_left (hm i) (hw.1 i)
+
+theorem isIncreasing_pairwise : ∀ {l : List ℚ}, isIncreasing l = true → l.Pairwise (· ≤ ·)
+  | [], _ => List.Pairwise.nil
+  | [a], _ => by simp
+  | a :: b :: t, h => by
+      simp [isIncreasing] at h
+      have ih := isIncreasing_pairwise h.2
+      have ih' := List.pairwise_cons.mp ih
+      rw [List.pairwise_cons]
+      refine ⟨?_, ih⟩
+      intro x hx
+      rcases List.mem_cons.mp hx with he | hm
+      · rw [he]; exact h.1
+      · exact le_trans h.1 (ih'.1 x hm)
+
+theorem sortR_of_sorted {l : List ℚ} (h : l.Pairwise (· ≤ ·)) : sortR l = l := by
+  unfold sortR
+  exact List.mergeSort_eq_self (· ≤ ·) h
+
+/-- the list `__neg__` builds from an increasing bound: reversed, negated, and `sorted` changes nothing -/
+theorem sortR_neg_reverse {l : List ℚ} (h : isIncreasing l = true) :
+    sortR (l.reverse.map (fun x => -x)) = l.reverse.map (fun x => -x) := by
+  apply sortR_of_sorted
+  rw [List.pairwise_map, List.pairwise_reverse]
+  exact (isIncreasing_pairwise h).imp (by intro a b hab; linarith)
+
+theorem neg_reverse_get {l : List ℚ} {k : Nat} (hk : k < l.length) :
+    (l.reverse.map (fun x => -x))[k]? = (l[l.length - 1 - k]?).map (fun x => -x) := by
+  rw [List.getElem?_map, List.getElem?_reverse hk]
+
+/-- lists of equal length with `l ≤ r` elementwise: Python's `l >= r` is false unless they are equal -/
+theorem lexGe_of_le : ∀ {l r : List ℚ}, l.length = r.length → (∀ (k : Nat) (a b : ℚ), l[k]? = some a → r[k]? = some b → a ≤ b) →
+    lexGe l r = false ∨ l = r
+  | [], [], _, _ => Or.inr rfl
+  | [], _ :: _, h, _ => by simp at h
+  | _ :: _, [], h, _ => by simp at h
+  | a :: as, b :: bs, h, hle => by
+      have hab : a ≤ b := hle 0 a b (by simp) (by simp)
+      by_cases he : a = b
+      · subst he
+        have := lexGe_of_le (l := as) (r := bs) (by simpa using h)
+          (fun k x y hx hy => hle (k+1) x y (by simpa using hx) (by simpa using hy))
+        rcases this with h1 | h1
+        · left; simp [lexGe, h1]
+        · right; rw [h1]
+      · left
+        have : a < b := lt_of_le_of_ne hab he
+        simp [lexGe, he, not_le.mpr this]
+
+/-! ## min_max -/
+
+theorem minMax_encloses (a b : ℚ) {L R : List ℚ} (h : minMax a b = .ok (L, R))
+    {ι : Type*} [Fintype ι] (w x : ι → ℚ) (hw : IsLaw w) (ha : ∀ i, a ≤ x i) (hb : ∀ i, x i ≤ b)
+    (k : Nat) (hk : k < 200) (p q : ℚ) (hp0 : lvL k < p) (hp1 : p < lvR k) (hq : IsQuantile w x p q) :
+    ∃ A B, L[k]? = some A ∧ R[k]? = some B ∧ A ≤ q ∧ q ≤ B := by
+  unfold minMax at h
+  split at h
+  · cases h
+  · have hp : 0 < p := lt_of_le_of_lt (lvL_nonneg k) hp0
+    have hp' : p < 1 := by
+      have : lvR k ≤ 1 := by
+        unfold lvR; have : (k : Rat) + 1 ≤ 200 := by exact_mod_cast hk
+        rw [div_le_one (by norm_num)]; exact this
+      linarith
+    obtain ⟨A, B, hA, hB, hAa, hbB⟩ := staircase_elementwise_widen h
+      (k := k) (a := a) (b := b) (replicate_get a hk) (replicate_get b hk)
+    exact ⟨A, B, hA, hB, le_trans hAa (quantile_ge_min w x a p q ha hp hq.2),
+      le_trans (quantile_le_max w x hw.2 b p q hb hp' hq.1) hbB⟩
+
+/-! ## min_mean (Markov) -/
+
+theorem markovR_mono (m μ p j : ℚ) (hmμ : m ≤ μ) (hpj : p ≤ j) (hj : j < 1) :
+    m + (μ - m) / (1 - p) ≤ markovR m μ j := by
+  unfold markovR
+  have h1 : 0 < 1 - j := by linarith
+  have h2 : 0 < 1 - p := by linarith
+  have : (μ - m) / (1 - p) ≤ (μ - m) / (1 - j) :=
+    div_le_div_of_nonneg_left (by linarith) h1 (by linarith)
+  linarith
+
+/-- ★ every law with support `≥ m` and mean `μ` has all its quantiles at levels strictly inside step `k`
+between the bounds of `min_mean(m, μ)`; the right bound of the last step (unbounded tail) is exempt -/
+theorem minMean_encloses (m μ : ℚ) {L R : List ℚ} (h : minMean m μ = .ok (L, R))
+    {ι : Type*} [Fintype ι] (w x : ι → ℚ) (hw : IsLaw w) (hm : ∀ i, m ≤ x i) (hμ : mean w x = μ)
+    (k : Nat) (hk : k < 199) (p q : ℚ) (hp0 : lvL k < p) (hp1 : p < lvR k) (hq : IsQuantile w x p q) :
+    ∃ A B, L[k]? = some A ∧ R[k]? = some B ∧ A ≤ q ∧ q ≤ B := by
+  unfold minMean at h
+  have hp : 0 < p := lt_of_le_of_lt (lvL_nonneg k) hp0
+  have hj := lvR_lt_one hk
+  have hmμ : m ≤ μ := hμ ▸ mean_ge_min w x hw m hm
+  obtain ⟨A, B, hA, hB, hAa, hbB⟩ := staircase_elementwise_widen h
+    (k := k) (a := m) (b := markovR m μ (lvR k)) (replicate_get m hk) (range_map_get _ hk)
+  refine ⟨A, B, hA, hB, le_trans hAa (quantile_ge_min w x m p q hm hp hq.2), le_trans ?_ hbB⟩
+  have := markov_quantile w x hw.1 hw.2 m μ p q hm hμ (by linarith) hq.1
+  exact le_trans this (markovR_mono m μ p (lvR k) hmμ (le_of_lt hp1) hj)
+
+
+/-! ## max_mean = negation of min_mean -/
+
+theorem stretch_get_last {l L : List Rat} (h : stretch l = .ok L) (hl : l.length = 199) :
+    L[199]? = l[198]? := by
+  unfold stretch at h
+  rw [if_neg (by omega), if_pos hl] at h
+  split at h
+  · rename_i x hx
+    cases h
+    rw [List.getElem?_append_right (by omega)]
+    simp [hl]
+    rw [List.getLast?_eq_getElem?] at hx
+    simp [hl] at hx
+    exact hx.symm
+  · cases h
+
+theorem staircase_elementwise_widen_last {l r L R : List Rat} (h : staircase .elementwise l r = .ok (L, R))
+    (hll : l.length = 199) (hrl : r.length = 199) {a b : Rat} (hl : l[198]? = some a) (hr : r[198]? = some b) :
+    ∃ A B, L[199]? = some A ∧ R[199]? = some B ∧ A ≤ a ∧ b ≤ B := by
+  obtain ⟨h1, h2, -, -⟩ := staircase_ok h
+  by_cases hsw : allGe l r = true
+  · simp [swOf, hsw] at h1 h2
+    exact ⟨b, a, by rw [stretch_get_last h1 hrl, hr], by rw [stretch_get_last h2 hll, hl], allGe_get hsw hl hr, allGe_get hsw hl hr⟩
+  · simp [swOf, hsw] at h1 h2
+    exact ⟨a, b, by rw [stretch_get_last h1 hll, hl], by rw [stretch_get_last h2 hrl, hr], le_refl _, le_refl _⟩
+
+/-- shape of `min_mean(m, μ)` for `m ≤ μ`: 200 increasing values on both sides, left at most `m`, right at least
+the Markov value of the step (the last step repeats step 198) -/
+theorem minMean_shape (m μ : ℚ) (hmμ : m ≤ μ) {L R : List ℚ} (h : minMean m μ = .ok (L, R)) :
+    L.length = 200 ∧ R.length = 200 ∧ isIncreasing L = true ∧ isIncreasing R = true ∧
+    ∀ i, i < 200 → ∃ A B, L[i]? = some A ∧ R[i]? = some B ∧ A ≤ m ∧ m ≤ B ∧
+      (i < 199 → markovR m μ (lvR i) ≤ B) := by
+  unfold minMean at h
+  obtain ⟨h1, h2, hi1, hi2⟩ := staircase_ok h
+  refine ⟨stretch_length h1, stretch_length h2, hi1, hi2, ?_⟩
+  have hge : ∀ i, i < 199 → m ≤ markovR m μ (lvR i) := by
+    intro i hi
+    unfold markovR
+    have : 0 ≤ (μ - m) / (1 - lvR i) := div_nonneg (by linarith) (by linarith [lvR_lt_one hi])
+    linarith
+  intro i hi
+  by_cases hi' : i < 199
+  · obtain ⟨A, B, hA, hB, hAa, hbB⟩ := staircase_elementwise_widen h
+      (k := i) (a := m) (b := markovR m μ (lvR i)) (replicate_get m hi') (range_map_get _ hi')
+    exact ⟨A, B, hA, hB, hAa, le_trans (hge i hi') hbB, fun _ => hbB⟩
+  · have : i = 199 := by omega
+    subst this
+    obtain ⟨A, B, hA, hB, hAa, hbB⟩ := staircase_elementwise_widen_last h (List.length_replicate) (by simp only [minMeanRight, List.length_map, List.length_range])
+      (a := m) (b := markovR m μ (lvR 198)) (replicate_get m (by norm_num)) (range_map_get _ (by norm_num))
+    exact ⟨A, B, hA, hB, hAa, le_trans (hge 198 (by norm_num)) hbB, fun h => absurd h (by omega)⟩
+
+/-- ★ `max_mean(M, μ)`: every law with support `≤ M` and mean `μ` is enclosed at every step; the left bound of the
+first step (unbounded tail) is exempt -/
+theorem maxMean_encloses (M μ : ℚ) {L R : List ℚ} (h : maxMean M μ = .ok (L, R))
+    {ι : Type*} [Fintype ι] (w x : ι → ℚ) (hw : IsLaw w) (hM : ∀ i, x i ≤ M) (hμ : mean w x = μ)
+    (k : Nat) (hk : k < 200) (p q : ℚ) (hp0 : lvL k < p) (hp1 : p < lvR k) (hq : IsQuantile w x p q) :
+    (∃ B, R[k]? = some B ∧ q ≤ B) ∧ (1 ≤ k → ∃ A, L[k]? = some A ∧ A ≤ q) := by
+  have hμM : μ ≤ M := by
+    have := mean_ge_min w (fun i => - x i) hw (-M) (fun i => by simp; exact hM i)
+    have e : mean w (fun i => - x i) = - mean w x := by
+      unfold mean; rw [← Finset.sum_neg_distrib]; apply Finset.sum_congr rfl; intro i _; ring
+    rw [e, hμ] at this; linarith
+  unfold maxMean at h
+  split at h
+  · rename_i p0 h0
+    obtain ⟨L0, R0⟩ := p0
+    obtain ⟨hL0, hR0, hiL, hiR, hsh⟩ := minMean_shape (-M) (-μ) (by linarith) h0
+    unfold negPB at h
+    simp only at h
+    rw [sortR_neg_reverse hiR, sortR_neg_reverse hiL] at h
+    have hk' : 199 - k < 200 := by omega
+    obtain ⟨A0, B0, hA0, hB0, hA0m, hmB0, hmk⟩ := hsh (199 - k) hk'
+    have hlenl : (R0.reverse.map (fun x => -x)).length = 200 := by simp [hR0]
+    have hlenr : (L0.reverse.map (fun x => -x)).length = 200 := by simp [hL0]
+    have hns : lexGe (R0.reverse.map (fun x => -x)) (L0.reverse.map (fun x => -x)) = false ∨
+        R0.reverse.map (fun x => -x) = L0.reverse.map (fun x => -x) := by
+      apply lexGe_of_le (by rw [hlenl, hlenr])
+      intro i a b ha hb
+      have hi : i < 200 := by
+        by_contra hc; rw [List.getElem?_eq_none (by omega)] at ha; cases ha
+      rw [neg_reverse_get (by omega)] at ha hb
+      rw [hR0] at ha; rw [hL0] at hb
+      obtain ⟨A1, B1, hA1, hB1, hA1m, hmB1, -⟩ := hsh (200 - 1 - i) (by omega)
+      rw [hB1] at ha; rw [hA1] at hb
+      simp at ha hb; subst ha hb; linarith
+    obtain ⟨h1, h2⟩ := staircase_lexi_get h hns (k := k) (by omega) (by omega)
+    rw [neg_reverse_get (by omega), hR0] at h1
+    rw [neg_reverse_get (by omega), hL0] at h2
+    have e199 : 200 - 1 - k = 199 - k := by omega
+    rw [e199, hB0] at h1
+    rw [e199, hA0] at h2
+    have hp : 0 < p := lt_of_le_of_lt (lvL_nonneg k) hp0
+    have hR1 : lvR k ≤ 1 := by
+      unfold lvR; have : (k : Rat) + 1 ≤ 200 := by exact_mod_cast hk
+      rw [div_le_one (by norm_num)]; exact this
+    constructor
+    · refine ⟨-A0, by rw [h2]; rfl, ?_⟩
+      have := quantile_le_max w x hw.2 M p q hM (by linarith) hq.1
+      linarith
+    · intro hk1
+      refine ⟨-B0, by rw [h1]; rfl, ?_⟩
+      have hmk' := hmk (by omega)
+      have hlv : 1 - lvR (199 - k) = lvL k := by
+        unfold lvR lvL
+        have : ((199 - k : Nat) : ℚ) = 199 - (k : ℚ) := by
+          rw [Nat.cast_sub (by omega)]; norm_num
+        rw [this]; ring
+      have hlpos : 0 < lvL k := by
+        unfold lvL; have : (0 : ℚ) < k := by exact_mod_cast hk1
+        positivity
+      unfold markovR at hmk'
+      rw [hlv] at hmk'
+      have hml := markov_quantile_lower w x hw.1 hw.2 M μ p q hM hμ hp hq.2
+      have : (M - μ) / p ≤ (M - μ) / lvL k :=
+        div_le_div_of_nonneg_left (by linarith) hlpos (le_of_lt hp0)
+      have e : (-μ - -M) / lvL k = (M - μ) / lvL k := by ring
+      rw [e] at hmk'
+      linarith
+  · cases h
+
+/-! ## mean_std (Cantelli)
+
+The supplied values stand for square roots.  An exact root is in general irrational, so enclosure is stated for
+every non-negative value whose square is *at least* the argument (the root itself, or the root rounded up);
+sharpness (`meanStd_left_attained`) is stated for the levels at which the value is an exact root. -/
+
+def RootSpecL (tL : Nat → ℚ) : Prop := ∀ k, k < 199 → 0 ≤ tL k ∧ 1 / lvI k - 1 ≤ tL k * tL k
+def RootSpecR (tR : Nat → ℚ) : Prop := ∀ k, k < 199 → 0 ≤ tR k ∧ lvR k / (1 - lvR k) ≤ tR k * tR k
+
+theorem meanStd_noswap (tL tR : Nat → ℚ) (hL : RootSpecL tL) (hR : RootSpecR tR) (μ σ : ℚ) (hσ : 0 ≤ σ) :
+    lexGe (meanStdLeft tL μ σ) (meanStdRight tR μ σ) = false ∨ meanStdLeft tL μ σ = meanStdRight tR μ σ := by
+  by_cases h0 : σ = 0
+  · right; subst h0; simp [meanStdLeft, meanStdRight]
+  · left
+    have hσ' : 0 < σ := lt_of_le_of_ne hσ (Ne.symm h0)
+    obtain ⟨hl0, hl1⟩ := hL 0 (by norm_num)
+    obtain ⟨hr0, -⟩ := hR 0 (by norm_num)
+    have hpos : 0 < tL 0 := by
+      rcases eq_or_lt_of_le hl0 with he | hlt
+      · rw [← he] at hl1; simp [lvI] at hl1
+      · exact hlt
+    apply lexGe_false_of_head (a := μ - σ * tL 0) (b := μ + σ * tR 0)
+    · exact range_map_get _ (by norm_num)
+    · exact range_map_get _ (by norm_num)
+    · have : 0 < σ * tL 0 := mul_pos hσ' hpos
+      have : 0 ≤ σ * tR 0 := mul_nonneg hσ hr0
+      linarith
+
+/-- ★ Cantelli: every law with mean `μ` and variance `σ²` is enclosed by `mean_std(μ, σ)` at every step whose
+bound is finite by the mathematics (left: `1 ≤ k`, right: `k < 199`) -/
+theorem meanStd_encloses (tL tR : Nat → ℚ) (hL : RootSpecL tL) (hR : RootSpecR tR) (μ σ : ℚ) (hσ : 0 ≤ σ)
+    {L R : List ℚ} (h : meanStd tL tR μ σ = .ok (L, R))
+    {ι : Type*} [Fintype ι] (w x : ι → ℚ) (hw : IsLaw w) (hμ : mean w x = μ) (hV : var w x = σ ^ 2)
+    (k : Nat) (hk : k < 199) (p q : ℚ) (hp0 : lvL k < p) (hp1 : p < lvR k) (hq : IsQuantile w x p q) :
+    (∃ B, R[k]? = some B ∧ q ≤ B) ∧ (1 ≤ k → ∃ A, L[k]? = some A ∧ A ≤ q) := by
+  unfold meanStd at h
+  have hlen1 : k < (meanStdLeft tL μ σ).length := by simp [meanStdLeft, hk]
+  have hlen2 : k < (meanStdRight tR μ σ).length := by simp [meanStdRight, hk]
+  obtain ⟨h1, h2⟩ := staircase_lexi_get h (meanStd_noswap tL tR hL hR μ σ hσ) hlen1 hlen2
+  have hV' : ∑ i, w i * (x i - μ) ^ 2 = σ ^ 2 := by rw [← hμ]; exact hV
+  have hμ' : ∑ i, w i * x i = μ := hμ
+  constructor
+  · refine ⟨μ + σ * tR k, ?_, ?_⟩
+    · rw [h2]; exact range_map_get _ hk
+    · exact cantelli_right_bound w x hw.1 hw.2 μ σ (tR k) (lvR k) p q hμ' hV' hσ (hR k hk).1 (hR k hk).2
+        (lvR_lt_one hk) (le_of_lt hp1) hq.1
+  · intro hk1
+    refine ⟨μ - σ * tL k, ?_, ?_⟩
+    · rw [h1]; exact range_map_get _ hk
+    · have hI : lvI k = lvL k := by unfold lvI lvL; rw [if_neg (by omega)]
+      have hpos : 0 < lvI k := by
+        rw [hI]; unfold lvL
+        have : (0 : ℚ) < k := by exact_mod_cast hk1
+        positivity
+      exact cantelli_left_bound w x hw.1 hw.2 μ σ (tL k) (lvI k) p q hμ' hV' hσ (hL k hk).1 (hL k hk).2
+        hpos (by rw [hI]; exact le_of_lt hp0) hq.2
+
+/-! ## min_max_mean -/
+
+theorem mapM_ok_get {α β : Type} (f : α → Except Err β) : ∀ (xs : List α) (l : List β), xs.mapM f = .ok l →
+    ∀ (k : Nat) (x : α), xs[k]? = some x → ∃ v, f x = .ok v ∧ l[k]? = some v
+  | [], l, _, k, x, hx => by simp at hx
+  | y :: ys, l, h, k, x, hx => by
+      rw [List.mapM_cons] at h
+      cases hfy : f y with
+      | error e => simp [hfy, bind, Except.bind] at h
+      | ok v =>
+        cases hrec : ys.mapM f with
+        | error e => simp [hfy, hrec, bind, Except.bind] at h
+        | ok vs =>
+          simp [hfy, hrec, bind, Except.bind, pure, Except.pure] at h
+          subst h
+          cases k with
+          | zero => simp at hx; subst hx; exact ⟨v, hfy, by simp⟩
+          | succ k =>
+            simp at hx
+            obtain ⟨v', hv1, hv2⟩ := mapM_ok_get f ys vs hrec k x hx
+            exact ⟨v', hv1, by simpa using hv2⟩
+
+/-- ★ range + mean: every law on `[a,b]` with mean `μ` is enclosed at every step, whichever side of the
+mid-point switch the step falls -/
+theorem minMaxMean_encloses (a b μ : ℚ) {L R : List ℚ} (h : minMaxMean a b μ = .ok (L, R))
+    {ι : Type*} [Fintype ι] (w x : ι → ℚ) (hw : IsLaw w) (ha : ∀ i, a ≤ x i) (hb : ∀ i, x i ≤ b)
+    (hμ : mean w x = μ)
+    (k : Nat) (hk : k < 200) (p q : ℚ) (hp0 : lvL k < p) (hp1 : p < lvR k) (hq : IsQuantile w x p q) :
+    ∃ A B, L[k]? = some A ∧ R[k]? = some B ∧ A ≤ q ∧ q ≤ B := by
+  unfold minMaxMean at h
+  split at h
+  · cases h
+  · simp only at h
+    split at h
+    · rename_i l r hl hr
+      have hp : 0 < p := lt_of_le_of_lt (lvL_nonneg k) hp0
+      have hR1 : lvR k ≤ 1 := by
+        unfold lvR; have : (k : Rat) + 1 ≤ 200 := by exact_mod_cast hk
+        rw [div_le_one (by norm_num)]; exact this
+      have hp' : p < 1 := by linarith
+      have hrange : (List.range 200)[k]? = some k := by simp [hk]
+      obtain ⟨vl, hvl, hlk⟩ := mapM_ok_get _ _ _ hl k k hrange
+      obtain ⟨vr, hvr, hrk⟩ := mapM_ok_get _ _ _ hr k k hrange
+      obtain ⟨A, B, hA, hB, hAa, hbB⟩ := staircase_elementwise_widen h hlk hrk
+      have hqa : a ≤ q := quantile_ge_min w x a p q ha hp hq.2
+      have hqb : q ≤ b := quantile_le_max w x hw.2 b p q hb hp' hq.1
+      have haμ : a ≤ μ := hμ ▸ mean_ge_min w x hw a ha
+      have hμb : μ ≤ b := by
+        have := mean_ge_min w (fun i => - x i) hw (-b) (fun i => by simp; exact hb i)
+        have e : mean w (fun i => - x i) = - mean w x := by
+          unfold mean; rw [← Finset.sum_neg_distrib]; apply Finset.sum_congr rfl; intro i _; ring
+        rw [e, hμ] at this; linarith
+      refine ⟨A, B, hA, hB, le_trans hAa ?_, le_trans ?_ hbB⟩
+      · -- left value
+        unfold mmmLeftAt at hvl
+        simp only at hvl
+        split at hvl
+        · cases hvl; exact hqa
+        · split at hvl
+          · cases hvl
+          · rename_i hi0
+            cases hvl
+            have hipos : 0 < lvL k := lt_of_le_of_ne (lvL_nonneg k) (Ne.symm hi0)
+            have hml := markov_quantile_lower w x hw.1 hw.2 b μ p q hb hμ hp hq.2
+            have : (b - μ) / p ≤ (b - μ) / lvL k :=
+              div_le_div_of_nonneg_left (by linarith) hipos (le_of_lt hp0)
+            have e : (μ - b) / lvL k + b = b - (b - μ) / lvL k := by ring
+            rw [e]
+            exact max_le hqa (by linarith)
+      · -- right value
+        unfold mmmRightAt at hvr
+        simp only at hvr
+        split at hvr
+        · cases hvr; exact hqb
+        · split at hvr
+          · cases hvr
+          · rename_i hj1
+            cases hvr
+            have hjlt : lvR k < 1 := lt_of_le_of_ne hR1 (fun he => hj1 (by rw [he]; ring))
+            have hm := markov_quantile w x hw.1 hw.2 a μ p q ha hμ hp' hq.1
+            have := markovR_mono a μ p (lvR k) haμ (le_of_lt hp1) hjlt
+            unfold markovR at this
+            exact le_min hqb (by linarith)
+    · cases h
+    · cases h
+
+/-- the mid-point switch selects the larger of the two lower bounds: for `0 < i`,
+`i ≤ mid ↔ b - (b-μ)/i ≤ a` -/
+theorem mmm_switch (a b μ i : ℚ) (hab : a < b) (hi : 0 < i) :
+    i ≤ (b - μ) / (b - a) ↔ (μ - b) / i + b ≤ a := by
+  have hba : 0 < b - a := by linarith
+  rw [le_div_iff₀ hba]
+  have e : (μ - b) / i + b ≤ a ↔ (μ - b) / i ≤ a - b := by constructor <;> intro h <;> linarith
+  rw [e, div_le_iff₀ hi]
+  constructor <;> intro h <;> nlinarith
+
+/-! ## min_max_median -/
+
+/-- ★ median: every law on `[a,b]` having `med` as a median is enclosed at every step -/
+theorem minMaxMedian_encloses (a b med : ℚ) (hab : a ≠ b) {L R : List ℚ} (h : minMaxMedian a b med = .ok (L, R))
+    {ι : Type*} [Fintype ι] (w x : ι → ℚ) (hw : IsLaw w) (ha : ∀ i, a ≤ x i) (hb : ∀ i, x i ≤ b)
+    (hmed : IsQuantile w x (1 / 2) med)
+    (k : Nat) (hk : k < 200) (p q : ℚ) (hp0 : lvL k < p) (hp1 : p < lvR k) (hq : IsQuantile w x p q) :
+    ∃ A B, L[k]? = some A ∧ R[k]? = some B ∧ A ≤ q ∧ q ≤ B := by
+  unfold minMaxMedian at h
+  rw [if_neg hab] at h
+  split at h
+  · cases h
+  · have hp : 0 < p := lt_of_le_of_lt (lvL_nonneg k) hp0
+    have hR1 : lvR k ≤ 1 := by
+      unfold lvR; have : (k : Rat) + 1 ≤ 200 := by exact_mod_cast hk
+      rw [div_le_one (by norm_num)]; exact this
+    have hp' : p < 1 := by linarith
+    have hqa : a ≤ q := quantile_ge_min w x a p q ha hp hq.2
+    have hqb : q ≤ b := quantile_le_max w x hw.2 b p q hb hp' hq.1
+    by_cases hk1 : k < 100
+    · have hl : (medianLeft a med)[k]? = some a := by
+        unfold medianLeft; rw [List.getElem?_append_left (by simp [hk1])]; exact replicate_get a hk1
+      have hr : (medianRight b med)[k]? = some med := by
+        unfold medianRight; rw [List.getElem?_append_left (by simp [hk1])]; exact replicate_get med hk1
+      obtain ⟨A, B, hA, hB, hAa, hbB⟩ := staircase_elementwise_widen h hl hr
+      have : p < 1 / 2 := by
+        have : lvR k ≤ 1 / 2 := by
+          unfold lvR; have : (k : Rat) + 1 ≤ 100 := by exact_mod_cast hk1
+          rw [div_le_iff₀ (by norm_num)]; linarith
+        linarith
+      exact ⟨A, B, hA, hB, le_trans hAa hqa, le_trans (median_upper w x hw.1 med p q hmed.2 this hq.1) hbB⟩
+    · have hk2 : 100 ≤ k := by omega
+      have hl : (medianLeft a med)[k]? = some med := by
+        unfold medianLeft; rw [List.getElem?_append_right (by simp [hk2])]
+        simp only [List.length_replicate]; exact replicate_get med (by omega)
+      have hr : (medianRight b med)[k]? = some b := by
+        unfold medianRight; rw [List.getElem?_append_right (by simp [hk2])]
+        simp only [List.length_replicate]; exact replicate_get b (by omega)
+      obtain ⟨A, B, hA, hB, hAa, hbB⟩ := staircase_elementwise_widen h hl hr
+      have : 1 / 2 < p := by
+        have : (1 : ℚ) / 2 ≤ lvL k := by
+          unfold lvL; have : (100 : ℚ) ≤ k := by exact_mod_cast hk2
+          rw [le_div_iff₀ (by norm_num)]; linarith
+        linarith
+      exact ⟨A, B, hA, hB, le_trans hAa (median_lower w x hw.1 med p q hmed.1 this hq.2), le_trans hqb hbB⟩
+
+
+/-! ## sharpness: the extremal two-point laws reach the bounds one step further out -/
+
+/-- ★ the Markov two-point law `{m : (k+1)/200, right[k] : rest}` meets the constraints of `min_mean(m, μ)` and has
+`right[k]` as its quantile at every level of the next step (and beyond): the right bound is within one
+probability step of an admissible law -/
+theorem minMean_right_attained (m μ : ℚ) (hmμ : m ≤ μ) (k : Nat) (hk : k < 199) :
+    ∃ w x : Bool → ℚ, IsLaw w ∧ (∀ b, m ≤ x b) ∧ mean w x = μ ∧
+      (minMeanRight m μ)[k]? = some (x true) ∧ ∀ p, lvR k ≤ p → p ≤ 1 → IsQuantile w x p (x true) := by
+  obtain ⟨h1, h2, h3, h4⟩ := markov_two_point m μ (lvR k) hmμ (le_of_lt (lvR_pos k)) (lvR_lt_one hk)
+  refine ⟨w2 (lvR k), x2 m (m + (μ - m) / (1 - lvR k)), h1, h3, h2, ?_, ?_⟩
+  · unfold minMeanRight; rw [range_map_get _ hk]; simp [x2, markovR, add_comm]
+  · intro p hp0 hp1; simpa [x2] using h4 p hp0 hp1
+
+/-- ★ the Cantelli two-point law reaches `left[k]` of `mean_std` at every level up to `k/200`, whenever the
+supplied value is an exact root at that level -/
+theorem meanStd_left_attained (tL : Nat → ℚ) (μ σ : ℚ) (hσ : 0 ≤ σ) (k : Nat) (hk1 : 1 ≤ k) (hk : k < 199)
+    (ht : 0 ≤ tL k ∧ tL k * tL k = 1 / lvI k - 1) :
+    ∃ w x : Bool → ℚ, IsLaw w ∧ mean w x = μ ∧ var w x = σ ^ 2 ∧
+      (meanStdLeft tL μ σ)[k]? = some (x false) ∧ ∀ p, 0 ≤ p → p ≤ lvL k → IsQuantile w x p (x false) := by
+  have hI : lvI k = lvL k := by unfold lvI lvL; rw [if_neg (by omega)]
+  have hpos : 0 < lvL k := by
+    unfold lvL; have : (0 : ℚ) < k := by exact_mod_cast hk1
+    positivity
+  have hlt : lvL k < 1 := by
+    unfold lvL; have : (k : ℚ) < 199 := by exact_mod_cast hk
+    rw [div_lt_one (by norm_num)]; linarith
+  rw [hI] at ht
+  have htpos : 0 < tL k := by
+    rcases eq_or_lt_of_le ht.1 with he | h
+    · exfalso
+      have h2 := ht.2
+      rw [← he] at h2
+      have : 1 < 1 / lvL k := by rw [lt_div_iff₀ hpos]; linarith
+      linarith
+    · exact h
+  obtain ⟨h1, h2, h3, h4⟩ := cantelli_two_point μ σ (tL k) (lvL k) hσ htpos ht.2 hpos hlt
+  refine ⟨w2 (lvL k), x2 (μ - σ * tL k) (μ + σ / tL k), h1, h2, h3, ?_, ?_⟩
+  · unfold meanStdLeft; rw [range_map_get _ hk]; simp [x2]
+  · intro p hp0 hp1; simpa [x2] using h4 p hp0 hp1
+
+/-! ## known_properties: the dispatcher table -/
+
+def keysOf (fam mx me md mn mo sd vr : Bool) : List Key :=
+  (if fam then [Key.family] else []) ++ (if mx then [Key.maximum] else []) ++ (if me then [Key.mean] else []) ++
+  (if md then [Key.median] else []) ++ (if mn then [Key.minimum] else []) ++ (if mo then [Key.mode] else []) ++
+  (if sd then [Key.std] else []) ++ (if vr then [Key.var] else [])
+
+theorem presentKeys_eq (A : Args) : presentKeys A =
+    keysOf A.family A.maximum.isSome A.mean.isSome A.median.isSome A.minimum.isSome A.mode.isSome A.std.isSome
+      A.var.isSome := rfl
+
+/-- the property's table as a function of the *set* of supplied constraints (family absent): the ten named
+combinations and nothing else build a distribution-free p-box -/
+def tableSpec (mx me md mn mo sd vr : Bool) : Handler :=
+  match mx, me, md, mn, mo, sd, vr with
+  | true, false, false, true, false, false, false => .minMax
+  | false, true, false, true, false, false, false => .minMean
+  | true, true, false, false, false, false, false => .maxMean
+  | false, true, false, false, false, true, false => .meanStd
+  | false, true, false, false, false, false, true => .meanVar
+  | true, true, false, true, false, false, false => .minMaxMean
+  | true, false, false, true, true, false, false => .minMaxMode
+  | true, false, true, true, false, false, false => .minMaxMedian
+  | true, true, false, true, false, true, false => .minMaxMeanStd
+  | true, true, false, true, false, false, true => .minMaxMeanVar
+  | _, _, _, _, _, _, _ => .default
+
+/-- ★ all 128 subsets of the numeric constraints are routed as the table says -/
+theorem dispatcher_table : ∀ mx me md mn mo sd vr : Bool,
+    route (keysOf false mx me md mn mo sd vr) = tableSpec mx me md mn mo sd vr := by decide
+
+/-- with `family=` no combination reaches a distribution-free constructor (it is handed to the parametric
+parsers, raises `TypeError` for ("family","maximum","minimum"), or is unsupported) -/
+theorem dispatcher_family : ∀ mx me md mn mo sd vr : Bool,
+    route (keysOf true mx me md mn mo sd vr) ∈
+      [Handler.parseMoments, Handler.truncParseMoments, Handler.minMaxWithFamily, Handler.default] := by decide
+
+/-- each value reaches the parameter of the same name -/
+theorem knownProperties_minMean (S : Sup) (a μ : ℚ) :
+    knownProperties S { minimum := some a, mean := some μ } = (minMean a μ).map Out.pbox := rfl
+theorem knownProperties_maxMean (S : Sup) (b μ : ℚ) :
+    knownProperties S { maximum := some b, mean := some μ } = (maxMean b μ).map Out.pbox := rfl
+theorem knownProperties_minMax (S : Sup) (a b : ℚ) :
+    knownProperties S { minimum := some a, maximum := some b } = (minMax a b).map Out.pbox := rfl
+theorem knownProperties_meanStd (S : Sup) (μ σ : ℚ) :
+    knownProperties S { mean := some μ, std := some σ } = (meanStd S.tL S.tR μ σ).map Out.pbox := rfl
+theorem knownProperties_meanVar (S : Sup) (μ v : ℚ) :
+    knownProperties S { mean := some μ, var := some v } = (meanVar S.tL S.tR μ v S.sv).map Out.pbox := rfl
+theorem knownProperties_minMaxMean (S : Sup) (a b μ : ℚ) :
+    knownProperties S { minimum := some a, maximum := some b, mean := some μ } = (minMaxMean a b μ).map Out.pbox := rfl
+theorem knownProperties_minMaxMode (S : Sup) (a b M : ℚ) :
+    knownProperties S { minimum := some a, maximum := some b, mode := some M } = (minMaxMode a b M).map Out.pbox := rfl
+theorem knownProperties_minMaxMedian (S : Sup) (a b M : ℚ) :
+    knownProperties S { minimum := some a, maximum := some b, median := some M } = (minMaxMedian a b M).map Out.pbox := rfl
+theorem knownProperties_minMaxMeanStd (S : Sup) (a b μ σ : ℚ) :
+    knownProperties S { minimum := some a, maximum := some b, mean := some μ, std := some σ } =
+      (minMaxMeanStd S.roots a b μ σ).map Out.pbox := rfl
+theorem knownProperties_minMaxMeanVar (S : Sup) (a b μ v : ℚ) :
+    knownProperties S { minimum := some a, maximum := some b, mean := some μ, var := some v } =
+      (minMaxMeanVar S.roots a b μ v S.sv).map Out.pbox := rfl
+
+/-! ## min_max_mode: only the shape and the two extremal uniforms are proved -/
+
+/-- full statement (NOT proved): every law on `[a,b]` whose distribution function is convex below the mode `M`
+and concave above it has its quantiles inside the bounds -/
+def ModeStatement : Prop :=
+  ∀ (a b M : ℚ) (L R : List ℚ), a < b → a ≤ M → M ≤ b → minMaxMode a b M = .ok (L, R) →
+  ∀ F : ℚ → ℚ, Monotone F → (∀ x, x < a → F x = 0) → (∀ x, b ≤ x → F x = 1) →
+    (∀ x y t, x < M → y < M → 0 ≤ t → t ≤ 1 → F (t * x + (1 - t) * y) ≤ t * F x + (1 - t) * F y) →
+    (∀ x y t, M < x → M < y → 0 ≤ t → t ≤ 1 → t * F x + (1 - t) * F y ≤ F (t * x + (1 - t) * y)) →
+  ∀ (k : Nat) (p q : ℚ), k < 200 → lvL k < p → p < lvR k → (∀ y, y < q → F y ≤ p) → p ≤ F q →
+    ∃ A B, L[k]? = some A ∧ R[k]? = some B ∧ A ≤ q ∧ q ≤ B
+
+/-- proved part: the p-box contains the quantile functions `a + p (M-a)` and `M + p (b-M)` of the two extremal
+unimodal laws (uniform on `[a,M]` and on `[M,b]`) at every level inside each step, with equality at the step's
+own level (so the bounds are attained) -/
+theorem minMaxMode_uniforms_partial (a b M : ℚ) (hab : a < b) (haM : a ≤ M) (hMb : M ≤ b) {L R : List ℚ}
+    (h : minMaxMode a b M = .ok (L, R)) (k : Nat) (hk : k < 200) (p : ℚ) (hp0 : lvL k < p) (hp1 : p < lvR k) :
+    ∃ A B, L[k]? = some A ∧ R[k]? = some B ∧
+      A ≤ a + p * (M - a) ∧ a + p * (M - a) ≤ B ∧ A ≤ M + p * (b - M) ∧ M + p * (b - M) ≤ B ∧
+      A ≤ a + lvL k * (M - a) ∧ M + lvR k * (b - M) ≤ B := by
+  unfold minMaxMode at h
+  rw [if_neg (ne_of_lt hab), if_neg (not_lt.mpr (le_of_lt hab))] at h
+  obtain ⟨A, B, hA, hB, hAa, hbB⟩ := staircase_elementwise_widen h
+    (k := k) (a := lvL k * (M - a) + a) (b := lvR k * (b - M) + M)
+    (by unfold modeLeft; exact range_map_get _ hk) (by unfold modeRight; exact range_map_get _ hk)
+  have hl0 := lvL_nonneg k
+  have hR1 : lvR k ≤ 1 := by
+    unfold lvR; have : (k : Rat) + 1 ≤ 200 := by exact_mod_cast hk
+    rw [div_le_one (by norm_num)]; exact this
+  have h1 : 0 ≤ M - a := by linarith
+  have h2 : 0 ≤ b - M := by linarith
+  refine ⟨A, B, hA, hB, ?_, ?_, ?_, ?_, ?_, ?_⟩ <;> nlinarith
+
+/-! ## min_max_mean_std: the statement, and what is proved of it -/
+
+/-- full statement (NOT proved: the `x3` component of the recurrence is not verified) -/
+def MmmsStatement : Prop :=
+  ∀ (Rt : Roots) (a b μ σ : ℚ) (L R : List ℚ), a < b → 0 ≤ σ →
+    (0 ≤ Rt.smax ∧ (μ - a) * (b - μ) ≤ Rt.smax * Rt.smax) →
+    (∀ k, 1 ≤ k → k < 200 → 0 ≤ Rt.t1 k ∧ 1 / lvL k - 1 ≤ Rt.t1 k * Rt.t1 k) →
+    (∀ k, 1 ≤ k → k < 200 → 0 ≤ Rt.t2 k ∧ 1 / (1 / lvL k - 1) ≤ Rt.t2 k * Rt.t2 k) →
+    (∀ k, k ≤ 200 → 0 ≤ x5At (σ / (b - a)) k → 0 ≤ Rt.s5 k ∧ Rt.s5 k * Rt.s5 k = x5At (σ / (b - a)) k) →
+    minMaxMeanStd Rt a b μ σ = .ok (L, R) →
+  ∀ {ι : Type} [Fintype ι] (w x : ι → ℚ), IsLaw w → (∀ i, a ≤ x i) → (∀ i, x i ≤ b) → mean w x = μ → var w x = σ ^ 2 →
+  ∀ (k : Nat) (p q : ℚ), k < 200 → lvL k < p → p < lvR k → IsQuantile w x p q →
+    ∃ A B, L[k]? = some A ∧ R[k]? = some B ∧ A ≤ q ∧ q ≤ B
+
+theorem cummaxFrom_sound : ∀ (xs : List ℚ) (m : ℚ) (Q : Nat → ℚ), (∀ i, Q i ≤ Q (i + 1)) → m ≤ Q 0 →
+    (∀ (k : Nat) (v : ℚ), xs[k]? = some v → v ≤ Q k) → ∀ (k : Nat) (v : ℚ), (cummaxFrom m xs)[k]? = some v → v ≤ Q k
+  | [], _, _, _, _, _, k, v, hv => by simp [cummaxFrom] at hv
+  | y :: ys, m, Q, hQ, hm, hx, 0, v, hv => by
+      simp [cummaxFrom] at hv; subst hv
+      exact max_le hm (hx 0 y (by simp))
+  | y :: ys, m, Q, hQ, hm, hx, k + 1, v, hv => by
+      simp [cummaxFrom] at hv
+      have hmax : max m y ≤ Q 0 := max_le hm (hx 0 y (by simp))
+      exact cummaxFrom_sound ys (max m y) (fun i => Q (i + 1)) (fun i => hQ (i + 1)) (le_trans hmax (hQ 0))
+        (fun k v hk => hx (k + 1) v (by simpa using hk)) k v hv
+
+/-- proved part (soundness of the repair): a quantile function is monotone, so if the raw left values of the
+recurrence are lower bounds of a monotone envelope `Q`, the accumulated values `np.maximum.accumulate` returns are
+lower bounds too.  (The raw values themselves are verified only through their `x2` (Cantelli) and `x6`
+(range-mean) components, theorems `meanStd_encloses` / `minMaxMean_encloses`; `x3` is not.) -/
+theorem mmms_cummax_sound_partial (xs : List ℚ) (Q : Nat → ℚ) (hQ : ∀ i, Q i ≤ Q (i + 1))
+    (hx : ∀ (k : Nat) (v : ℚ), xs[k]? = some v → v ≤ Q k) :
+    ∀ (k : Nat) (v : ℚ), (cummax xs)[k]? = some v → v ≤ Q k := by
+  cases xs with
+  | nil => intro k v hv; simp [cummax] at hv
+  | cons y ys =>
+    intro k v hv
+    cases k with
+    | zero => simp [cummax] at hv; subst hv; exact hx 0 y (by simp)
+    | succ k =>
+      simp [cummax] at hv
+      exact cummaxFrom_sound ys y (fun i => Q (i + 1)) (fun i => hQ (i + 1)) (le_trans (hx 0 y (by simp)) (hQ 0))
+        (fun k v hk => hx (k + 1) v (by simpa using hk)) k v hv
+
+/-! ## non-vacuity: the hypotheses of the theorems above are satisfiable -/
+
+def succeeded : Except Err PB → Bool
+  | .ok _ => true
+  | .error _ => false
+
+example : succeeded (minMean 0 1) = true := by decide +kernel
+-- `maxMean 2 1` succeeds too (observed by the tie on every run); `sorted` (`List.mergeSort`, defined by
+-- well-founded recursion) does not reduce in the kernel, so there is no `decide` example for it.
+example : succeeded (minMean (-2) (-1)) = true := by decide +kernel
+example : succeeded (minMax 0 2) = true := by decide +kernel
+example : succeeded (minMaxMean 0 2 1) = true := by decide +kernel
+example : succeeded (minMaxMedian 0 2 1) = true := by decide +kernel
+example : succeeded (minMaxMode 0 2 1) = true := by decide +kernel
+/-- rational upper approximations of the roots exist (here `15 ≥ √199 ≥` every root needed) -/
+example : RootSpecL (fun _ => 15) ∧ RootSpecR (fun _ => 15) := by
+  constructor
+  · intro k hk
+    refine ⟨by norm_num, ?_⟩
+    unfold lvI; split
+    · norm_num
+    · rename_i h
+      have h1 : (1 : ℚ) ≤ k := by exact_mod_cast Nat.one_le_iff_ne_zero.mpr h
+      have : 1 / ((k : ℚ) / 200) ≤ 200 := by
+        rw [div_le_iff₀ (by positivity)]
+        have : (200 : ℚ) * (k / 200) = k := by ring
+        rw [this]; exact h1
+      linarith
+  · intro k hk
+    refine ⟨by norm_num, ?_⟩
+    have hlt := lvR_lt_one hk
+    have hpos := lvR_pos k
+    have h1 : (1 : ℚ) / 200 ≤ 1 - lvR k := by
+      unfold lvR; have : (k : ℚ) + 1 ≤ 199 := by exact_mod_cast hk
+      rw [le_sub_iff_add_le, ← le_sub_iff_add_le', div_le_iff₀ (by norm_num)]; linarith
+    rw [div_le_iff₀ (by linarith)]
+    nlinarith
+example : succeeded (meanStd (fun _ => 15) (fun _ => 15) 1 (1/2)) = true := by decide +kernel
+/-- an exact root: level 100/200, `√(1/(1/2) - 1) = 1` -/
+example : (0 : ℚ) ≤ 1 ∧ (1 : ℚ) * 1 = 1 / lvI 100 - 1 := by unfold lvI; norm_num
+/-- a law meeting the constraints of `min_mean(0, 1)`: the two-point law `{0 : 1/2, 2 : 1/2}` -/
+example : IsLaw (w2 (1/2)) ∧ (∀ b, (0 : ℚ) ≤ x2 0 2 b) ∧ mean (w2 (1/2)) (x2 0 2) = 1 := by
+  refine ⟨two_isLaw _ (by norm_num) (by norm_num), ?_, ?_⟩
+  · intro b; cases b <;> simp [x2]
+  · rw [two_mean]; norm_num
+
 end Pun.Free
